@@ -83,4 +83,4 @@ MIN_BEHAVIOURS = {"McFaultsDev": 400, "McWire": 900, "McFaults": 3000, "McFaults
                   "McDispatchAll": 30000, "McDgram": 600, "McDgram3": 10000, "McCompound": 2000, "McCompound4": 30000, "McNack": 5000,
                   "McNackThorough": 15000, "McTwcc": 7000, "McTwccThorough": 50000, "McRemb": 1100, "McRembThorough": 5000, "McWireRemb": 100,
                   "McXr": 300, "McXrThorough": 4000, "McWireXr": 180, "McUnits": 200, "McUnitsThorough": 1500, "McWireUnits": 250,
-                  "McHist": 3000, "McHist4": 20000}
+                  "McHist": 5000, "McHist4": 20000}
